@@ -24,7 +24,7 @@ JOBS = {'quick': 4, 'thorough': 16}
 REQUIRED_MONITORS = ('instances_vs_truth', 'access_consistency', 'negative_topology')
 REQUIRED_CLASSES = ('enumerated', 'random-long', 'species:multi-residue', 'species:repeated-residue',
                     'species:same-name-other-size', 'solvent-interleaved', 'order:permuted', 'api:files', 'api:tops',
-                    'negative:absent-species', 'negative:pattern-at-end')
+                    'negative:absent-species', 'negative:pattern-at-end', 'negative:refused-then-system-used-again', 'api:tops+refused')
 RULE = ('enumerated part: all sequences of length <= Lmax over {S1,S2,S3,S4,W} x all permutations of the loading order of '
         'the species present (Lmax = 6 thorough, 4 quick with <= 6 orders); random part: systems of 50..2000 molecules in '
         'block / alternating / random order. Non-trivial: at least 2 loaded species present or a multi-residue species '
@@ -59,7 +59,7 @@ def setup(ctx):
     from gaddlemaps.components import System
     for name in ('__iter__', '__getitem__', '_check_index_in_available_mgro', '_find_all_molecules_and_replace',
                  '_molecules_ordered_all_gen', 'add_molecule_top'):
-        _cov.watch(System.__dict__[name], f'System.{name}')
+        _cov.watch_attr(System, name, f'System.{name}')
     _cov.start()
     d = _tmp['dir'] = tempfile.mkdtemp(prefix='gmv_c11_')
     _tmp['species'] = species_set()
@@ -110,13 +110,41 @@ def mol_key(m):
     return (m.name, tuple(m.atoms_ids), m.atoms_positions.tobytes())
 
 
-def build(ctx, path, order, api):
+def build(ctx, path, order, api, seq=None):
     from gaddlemaps.components import System
     if api == 'files':
         return System(path, *[_tmp['itp'][k] for k in order])
     s = System(path)
-    for k in order:
-        s.add_molecule_top(_tmp['tops'][k].copy())
+    if api != 'tops+refused':
+        for k in order:
+            s.add_molecule_top(_tmp['tops'][k].copy())
+        return s
+    # topologies that must be refused are offered between the good ones (as automatic discovery does with every
+    # candidate file); each refusal must leave the system as it was
+    from gaddlemaps.components import MoleculeTop
+    r = np.random.default_rng([len(order), hash(tuple(order)) & 0xFFFF, len(seq or ())])
+    adjacent_w_s1 = any(a == 'W' and b == 'S1' for a, b in zip(seq or (), (seq or ())[1:]))
+    for pos in range(len(order) + 1):
+        for _ in range(int(r.integers(0, 3))):
+            kind = ['absent', 'wrongnames', 'tail', 'again'][int(r.integers(0, 4))]
+            if kind == 'tail' and adjacent_w_s1:
+                continue
+            if kind == 'again':
+                if pos == 0:
+                    continue
+                top = _tmp['tops'][order[int(r.integers(0, pos))]].copy()      # a species whose instances are all taken
+            else:
+                top = MoleculeTop(_tmp[kind])
+            ctx.monitor('negative_topology')
+            ctx.hit('negative:refused-then-system-used-again')
+            try:
+                s.add_molecule_top(top)
+            except Exception:  # noqa
+                continue
+            ctx.violation(f'unmatched-topology-accepted:{kind}', f'no error for a {kind} topology offered after {list(order[:pos])}',
+                          witness={'sequence': list(seq or ())[:40], 'load_order': list(order)})
+        if pos < len(order):
+            s.add_molecule_top(_tmp['tops'][order[pos]].copy())
     return s
 
 
@@ -211,7 +239,7 @@ def run_sequence(ctx, seq, orders, tag, api_cycle, deep_every=1, mode='unique-gr
         if list(order) != sorted(order):
             ctx.hit('order:permuted')
         try:
-            s = build(ctx, path, order, api)
+            s = build(ctx, path, order, api, seq)
         except Exception as exc:  # noqa
             ctx.violation(f'system-construction-raises:{type(exc).__name__}', str(exc)[:200], witness=w)
             continue
@@ -253,7 +281,7 @@ def run_enum(ctx, case):
         seq = [KEYS[d] for d in digits]
         if all(k == 'W' for k in seq):
             continue
-        run_sequence(ctx, seq, orders, ('enum', L, idx), ['tops', 'tops', 'files'], deep_every=3)
+        run_sequence(ctx, seq, orders, ('enum', L, idx), ['tops', 'tops+refused', 'files', 'tops+refused'], deep_every=3)
         ctx.hit('enumerated')
         if idx == 37 and L == 3:
             ctx.sample({'kind': 'enumerated', 'sequence': seq, 'orders': [list(o) for o in orders([k for k in KEYS[:4] if k in seq])][:4]})
@@ -280,7 +308,7 @@ def run_rand(ctx, case):
         perms = list(itertools.permutations(present))
         r = np.random.default_rng([ctx.seed, case['i']])
         return [perms[int(i)] for i in r.choice(len(perms), min(len(perms), 3), replace=False)]
-    run_sequence(ctx, seq, orders, ('rand', case['i']), ['files', 'tops'], mode='unique-grid')
+    run_sequence(ctx, seq, orders, ('rand', case['i']), ['files', 'tops', 'tops+refused'], mode='unique-grid')
     ctx.hit('random-long')
     if case['i'] == 0:
         ctx.sample({'kind': 'random system', 'molecules': n, 'order_kind': kind, 'sequence_head': seq[:20]})
